@@ -158,8 +158,9 @@ class Ctx:
                 distribution=dict(sorted(self.dist.items(), key=lambda kv: -kv[1])[:80]),
                 exhaustive=self.exhaustive, known_findings_hit=sorted(self.known_hits), **self.extra),
             assumptions=self.assumptions, violations=len(seen) + (1 if rc and not seen else 0), wall_s=round(wall, 1))
-        os.makedirs(os.path.join(VERIF, 'evidence'), exist_ok=True)
-        json.dump(ev, open(os.path.join(VERIF, 'evidence', self.pid + '.json'), 'w'), indent=1)
+        evdir = os.path.join(core.COV, 'evidence') if core.COV else os.path.join(VERIF, 'evidence')
+        os.makedirs(evdir, exist_ok=True)
+        json.dump(ev, open(os.path.join(evdir, self.pid + '.json'), 'w'), indent=1)
         for l in lines: print(l)
         print('%s %s tier=%s seed=%d theorems=%d/%d evaluations=%d nontrivial=%d disagreements=%d violations=%d known=%d wall=%.0fs'
               % ('FAIL' if rc else 'PASS', self.pid, self.tier, self.seed, self.discharged, len(self.theorems),
